@@ -18,6 +18,30 @@ def register(R):
     def state_ok(rp):
         return And(wf(rp.s), inv02(rp.s))
 
+    # ghost spec functions for `stepping composes`:  step_of(u, rp) names the payload Update.apply_update returns
+    # (determinism assumption on that one function), iter_steps(rp, n) is n-fold iteration of
+    #   rp |-> step_of(rp.u, rp)      -- each step uses the update functions carried in the payload it steps
+    UPT = world.class_ty("Update")
+    _step_of = z3.Function("ghost_step_of", UPT.sort, RP.sort, RP.sort)
+    _iter = z3.Function("ghost_iter_steps", RP.sort, z3.IntSort(), RP.sort)
+
+    def step_of(u, rp):
+        return Sym(RP, _step_of(u.e, rp.e))
+
+    def one_step(rp):
+        return step_of(rp.u, rp)
+
+    def iter_steps(rp, n):
+        n = n if isinstance(n, Sym) else lift(n)
+        return Sym(RP, _iter(rp.e, n.e))
+
+    def iter_def(rp):
+        n = bound(IntT, "n!it")
+        return And(iter_steps(rp, 0) == rp,
+                   forall([n], Implies(n >= 0, iter_steps(rp, n + 1) == one_step(iter_steps(rp, n)))))
+    R.ghost = getattr(R, "ghost", {})
+    R.ghost.update(step_of=step_of, one_step=one_step, iter_steps=iter_steps)
+
     # ------------------------------------------------------------ crank
     ck = CO + "crank"
     s = R.spec(ck)
@@ -32,12 +56,17 @@ def register(R):
                    # n calls of the step function advance the clock by exactly n steps
                    s2.sim_time == s0.sim_time + a.time_steps * dt, r.sim_time == s2.sim_time)
     s.ensures("n_steps_advance_n_dt", crank_post, P)
+    # stepping composes: crank(rp, n) is the n-fold iterate of the one pure step function (then L4: iterating a then b
+    # times is iterating a+b times)
+    s.ghost_definition("iter_steps", lambda a: iter_def(a.runner_payload))
+    s.ensures("is_n_fold_iterate_of_the_step", lambda a, r: r.runner_payload == iter_steps(a.runner_payload, a.time_steps), P)
     s.no_raise(P)
 
     def crank_inv(acc, i, xs, env):
         s0 = env.runner_payload.s
         return And(state_ok(acc), acc.s.sim_timestep_duration_seconds == s0.sim_timestep_duration_seconds,
-                   acc.s.sim_time == s0.sim_time + i * s0.sim_timestep_duration_seconds)
+                   acc.s.sim_time == s0.sim_time + i * s0.sim_timestep_duration_seconds,
+                   acc == iter_steps(env.runner_payload, i))
     R.loop(ck, "reduce", 0, acc_type=RP, props=P, invariant=crank_inv)
 
     # ------------------------------------------------------------ batch runner
@@ -61,13 +90,23 @@ def register(R):
         covers = Implies(And(s0.sim_time == start, start <= end, (end - start) % dt == 0), r.s.sim_time == end)
         return And(state_ok(r), r.s.sim_time == s0.sim_time + n * dt, covers)
     s.ensures("covers_the_configured_interval", run_post, P)
+
+    def run_iter(a, r):
+        c = cfg(a)
+        dt = c.timestep_duration_seconds
+        start, end = c.start_time, c.end_time
+        n = Ite(end <= start, 0, (end - start + dt - 1) // dt)
+        return r == iter_steps(a.runner_payload, n)
+    s.ghost_definition("iter_steps", lambda a: iter_def(a.runner_payload))
+    s.ensures("is_n_fold_iterate_of_the_step", run_iter, P)
     s.no_raise(P)
 
     def run_inv(acc, i, xs, env):
         s0 = env.runner_payload.s
         return And(state_ok(acc), acc.s.sim_timestep_duration_seconds == s0.sim_timestep_duration_seconds,
                    acc.s.sim_time == s0.sim_time + i * s0.sim_timestep_duration_seconds,
-                   v_getfield(acc, "e") == v_getfield(env.runner_payload, "e"))
+                   v_getfield(acc, "e") == v_getfield(env.runner_payload, "e"),
+                   acc == iter_steps(env.runner_payload, i))
     R.loop(rk, "reduce", 0, acc_type=RP, props=P, invariant=run_inv)
 
     s = R.spec(LR + "_run_step_in_context._run_step", arg_types={"payload": RP, "t": IntT}, ret=RP)
@@ -78,6 +117,7 @@ def register(R):
     s.ensures("one_step", lambda a, r: And(state_ok(r), r.s.sim_time == a.payload.s.sim_time + a.payload.s.sim_timestep_duration_seconds,
               r.s.sim_timestep_duration_seconds == a.payload.s.sim_timestep_duration_seconds,
               v_getfield(r, "e") == v_getfield(a.payload, "e")), P)
+    s.ensures("is_the_step_function", lambda a, r: r == one_step(a.payload), P)
     s.no_raise(P)
 
     sk = LR + "LocalSimulationRunner.step"
@@ -87,7 +127,10 @@ def register(R):
     s.ensures("refuses_beyond_end", lambda a, r: And(
         Iff(r.is_none(), a.runner_payload.s.sim_time >= cfg(a).end_time),
         Implies(r.is_some(), r.val().s.sim_time == a.runner_payload.s.sim_time + a.runner_payload.s.sim_timestep_duration_seconds)), P)
+    s.ensures("is_the_step_function", lambda a, r: Implies(r.is_some(), r.val() == one_step(a.runner_payload)), P)
     s.no_raise(P)
     for k_ in (ck, rk, sk):
         pass
-    R.specs["nrel/hive/state/simulation_state/update/update.py::Update.apply_update"].opaque = True
+    au = R.specs["nrel/hive/state/simulation_state/update/update.py::Update.apply_update"]
+    au.opaque = True
+    au.determined_by("step_of", lambda a, r: r == step_of(a.self, a.runner_payload), P)
